@@ -26,6 +26,7 @@ type vConn struct {
 	dead      bool   // after a failure or Close every operation fails
 	closed    int    // number of Close calls
 	armed     bool   // last SetReadDeadline argument was non-zero
+	wArmed    bool   // a write deadline is set
 	deadlines int    // number of SetReadDeadline calls
 	wrote     []byte // concatenation of all successful writes
 	writes    [][]byte
@@ -37,6 +38,7 @@ type vConn struct {
 }
 
 func (v *vConn) op() error {
+	verifJitter()
 	if v.yield {
 		verifYield()
 	}
@@ -105,8 +107,23 @@ func (v *vConn) SetReadDeadline(t time.Time) error {
 	return nil
 }
 
-func (v *vConn) SetWriteDeadline(t time.Time) error { return v.op() }
-func (v *vConn) SetDeadline(t time.Time) error      { return v.op() }
+func (v *vConn) SetWriteDeadline(t time.Time) error {
+	if err := v.op(); err != nil {
+		return err
+	}
+	v.wArmed = !t.IsZero()
+	return nil
+}
+
+// SetDeadline sets both deadlines, as net.Conn specifies.
+func (v *vConn) SetDeadline(t time.Time) error {
+	if err := v.op(); err != nil {
+		return err
+	}
+	v.deadlines++
+	v.armed, v.wArmed = !t.IsZero(), !t.IsZero()
+	return nil
+}
 
 // vReader is an io.Reader over a byte slice.
 type vReader struct{ b []byte }
